@@ -730,6 +730,10 @@ type FuncResult struct {
 	vc          *VC
 }
 
+// asIfaceType is set while an implementor is verified against an
+// interface-method contract: the interface the contract belongs to.
+var asIfaceType types.Type
+
 func verifyFunction(P *Program, SS *SpecSet, G *Globals, fn *ssa.Function, con *Contract, suffix ...string) (res *FuncResult) {
 	vc := newVC(P, SS, G, fn, con)
 	if len(suffix) > 0 {
@@ -782,6 +786,12 @@ func verifyFunction(P *Program, SS *SpecSet, G *Globals, fn *ssa.Function, con *
 		}
 		if nm != "_" && nm != "" {
 			f.names[nm] = &specBinding{V: vc.sv(t, p.Type())}
+			if i == 0 && asIfaceType != nil && fn.Signature.Recv() != nil {
+				// an interface-method contract talks about the receiver as a value of
+				// the interface type ("t is Integer", "t.(Set)"): bind it boxed
+				benv := &specEnv{vc: vc, pkg: fn.Pkg.Pkg}
+				f.names[nm] = &specBinding{V: vc.sv(benv.box(vc.sv(t, p.Type()), asIfaceType), asIfaceType)}
+			}
 		}
 		if f.loopCon != nil {
 			onm := p.Name()
